@@ -16,6 +16,11 @@ appends) -- `rs x` with its text block and the lone `.` inside the string, furth
 last-line `rs` whose text comes from the script input, nested `@` -- run by `@` from every position of the current line and
 followed by commands with default / relative addresses.  The reference runs a register LINE BY LINE (RefEd.run_lines): the text
 block of an in-string `rs` is the lines up to the first lone `.` line, which is consumed, and the next line is the next command.
+Pipe stream (gen_pipe_case, pipe_sweep): `addr r file` (files with / without final newline, one unterminated line, empty), `addr r !cmd`,
+`beg,end!cmd`, `rx reg cmd` + `pu reg` with commands whose output is empty / unterminated / terminated; the reference RUNS the same
+command on the same bytes (run_shell) and takes the lines of what it prints (a last piece without newline is a line).  Big stream
+(gen_big_case): ranges and registers of 65535 .. 150000 bytes (more than a pipe holds) through filters that read all of their input.
+The extracted model (ExPipeDefs.ex_main_x) gets the (command, input) -> output table of what the reference ran.
 """
 import json, os, re, copy, glob as _glob
 import vlib
@@ -23,6 +28,7 @@ import vlib
 GROUP = 'ex'
 TRUSTED = ['tools/props/c06.py RefEd: the Python reference line editor (property text + the conventions of design.d/C06.md)',
            'the four shell filters tr/sort/cat/sed of the sandbox (/bin/sh) behave as their Python/OCaml re-implementations',
+           'streams pipe / big: /bin/sh and the coreutils of the sandbox are deterministic -- the reference for `!cmd`, `r !cmd`, `rx` is the same command run on the same bytes (run_shell); the model driver looks its inputs up in the table of what the reference ran',
            'tools/props/c06.py r_prog / cmdtab: the table line text -> commands through which the reference reads the lines of a register is the inverse of the renderer']
 
 MARKS = 'abc'
